@@ -135,14 +135,16 @@ static std::string do_writefile(std::istringstream& is) {
 // heap experiment (C12): write `n` AppText objects of `payload` bytes with container size `cs`, read them back with a
 // consumer that stalls, report the peak live heap of each session
 static std::string do_heap(std::istringstream& is) {
-    long n = 0, payload = 0; unsigned cs = 4096; int level = 0; long stall_every = 0, stall_us = 0;
-    is >> n >> payload >> cs >> level >> stall_every >> stall_us;
+    long n = 0, payload = 0; unsigned cs = 4096; int level = 0; long stall_every = 0, stall_us = 0; long unknown_every = 0;
+    is >> n >> payload >> cs >> level >> stall_every >> stall_us >> unknown_every;   // unknown_every = k: all but every k-th object carry a type code the reader does not know
     std::string path = TMPD + "/vblf-m" + std::to_string(getpid()) + ".blf";
     long long wpeak = 0, rpeak = 0; long got = 0;
     {
         long long h0 = g_live; g_peak = (long long)g_live;
         File f; f.compressionLevel = level; f.setDefaultLogContainerSize(cs); f.open(path.c_str(), std::ios_base::out);
-        for (long i = 0; i < n; i++) { auto* a = new AppText; a->text = std::string(size_t(payload), char('a' + i % 26)); f.write(a); }
+        for (long i = 0; i < n; i++) { auto* a = new AppText; a->text = std::string(size_t(payload), char('a' + i % 26));
+            if (unknown_every > 0 && (i + 1) % unknown_every != 0) a->objectType = static_cast<ObjectType>(200);
+            f.write(a); }
         f.close(); wpeak = (long long)g_peak - h0;
     }
     {
